@@ -669,7 +669,7 @@ func (b *teletextPageBuffer) parsePacketHeader(i []byte, magazineNumber uint8, t
 	charsetCode := controlBits >> 1
 
 	// Page transmission is done
-	if b.receiving && ((magazineSerial && pageNumber != b.pageNumber) ||
+	if b.receiving && ((magazineSerial && (pageNumber != b.pageNumber || magazineNumber != b.magazineNumber)) ||
 		(!magazineSerial && pageNumber != b.pageNumber && magazineNumber == b.magazineNumber)) {
 		b.receiving = false
 		return
